@@ -15,9 +15,11 @@ func init() {
 			"C09.empty-index: in the seekable reader every indexing of Index.Chunks lies behind a comparison of len(Index.Chunks) with 0 on its non-empty edge (empty blob: no panic). " +
 			"C09.errors-surface: IndexPos.loadChunk returns GetChunk/Data errors; IndexPos.Read returns a non-nil error whenever loadChunk or Seek failed (also after a partial copy); the FUSE handle answers a non-zero errno for every Seek error and every Read error other than io.EOF. " +
 			"C09.handle-lock: the per-handle IndexPos is used only while the handle's mutex is held exclusively across Seek+Read (a shared lock lets two requests interleave on the stateful cursor). " +
-			"C09.cursor-consistency: findOffset stores pos, curChunkIdx, curChunkOffset and curChunkID together after the last error return, and a change of the current chunk id invalidates the cached chunk data (store of nil behind the unequal edge); loadChunk serves the null chunk from memory only on the id-equal edge and otherwise stores the data fetched for curChunkID.",
+			"C09.cursor-consistency: findOffset stores pos, curChunkIdx, curChunkOffset and curChunkID together after the last error return, and a change of the current chunk id invalidates the cached chunk data (store of nil behind the unequal edge); loadChunk serves the null chunk from memory only on the id-equal edge and otherwise stores the data fetched for curChunkID. " +
+			"C09.chunks-verified (shared with C03): IndexPos copies whatever the store returns for curChunkID; the verifying constructors and all store back ends are checked as under C03.",
 		NotDecided: "correctness of the binary search and of the offset arithmetic, i.e. that the bytes returned are the blob's bytes for every history; FUSE kernel behaviour.",
 		Rules: []rule{
+			{"C09.chunks-verified", "every chunk a store hands to the reader was verified against the requested id (shared with C03)", 16, func(c *Ctx) { c03CtorVerifies(c); c03Backends(c) }},
 			{"C09.empty-index", "Index.Chunks is indexed only behind a non-empty check", 2, c09EmptyIndex},
 			{"C09.errors-surface", "store and seek errors end a read with an error / EIO", 4, c09ErrorsSurface},
 			{"C09.handle-lock", "the FUSE handle's cursor is used only under the exclusive handle lock", 2, c09HandleLock},
